@@ -11,6 +11,7 @@ from .core import AnalysisError, Vanished
 from .lexmodel import Row, Tokenizer
 from .refs import lexical as ref
 from .srcmodel import walk_own, const_str
+from . import norm
 
 KIND_OF_CLASS = {
     'TokComment': 'comment', 'TokSpace': 'space', 'TokNewline': 'newline',
@@ -161,14 +162,14 @@ class LexerSource:
         s = self.s_name
         d = {'node': node, 'body': body, 'test': test}
         if test is None:
-            for n in body:
-                for x in walk_own(n):
-                    if isinstance(x, ast.For) and isinstance(
-                            x.iter, ast.Name) and \
-                            x.iter.id == '_TOKEN_MATCHERS':
-                        d['kind'] = 'table'
-                        d['loop'] = x
-                        return d
+            for (fn, x) in norm.walk_deep(self.model, self.f, list(body)):
+                if isinstance(x, ast.For) and isinstance(
+                        x.iter, ast.Name) and \
+                        x.iter.id == '_TOKEN_MATCHERS':
+                    d['kind'] = 'table'
+                    d['loop'] = x
+                    d['loop_func'] = fn
+                    return d
             d['kind'] = 'other'
             return d
         # self.X is not None
@@ -182,44 +183,28 @@ class LexerSource:
             d['kind'] = 'state'
             d['state'] = test.left.attr
             return d
-        # s.startswith(CONST) [or ...]
-        parts = test.values if (isinstance(test, ast.BoolOp) and
-                                isinstance(test.op, ast.Or)) else [test]
-        prefixes = []
-        for p in parts:
-            if isinstance(p, ast.Call) and isinstance(p.func, ast.Attribute) \
-                    and p.func.attr == 'startswith' and \
-                    isinstance(p.func.value, ast.Name) and \
-                    p.func.value.id == s and p.args and \
-                    isinstance(const_str(p.args[0]), bytes):
-                prefixes.append(const_str(p.args[0]))
-            else:
-                prefixes = None
-                break
+        # s.startswith(CONST) [or ...] / s.startswith((A, B))
+        prefixes = norm.prefixes_of(self.ctx, self.f, test, s)
         if prefixes:
             d['kind'] = 'prefix'
             d['prefixes'] = prefixes
             d['sets_state'] = self._state_set_in(body)
             return d
-        # re.match(CONST, s)
-        if isinstance(test, ast.Call) and \
-                self.model.ext_name(self.module, test.func) == 're.match' and \
-                len(test.args) >= 2 and isinstance(test.args[1], ast.Name) \
-                and test.args[1].id == s:
-            pat = self.ev.eval_expr(self.module, test.args[0])
-            if isinstance(pat, bytes):
-                d['kind'] = 'regex'
-                d['pattern'] = pat
-                d['sets_state'] = self._state_set_in(body)
-                # the body re-matches with a capturing group for the level
-                for x in body:
-                    for c in walk_own(x):
-                        if isinstance(c, ast.Call) and self.model.ext_name(
-                                self.module, c.func) == 're.match':
-                            p2 = self.ev.eval_expr(self.module, c.args[0])
-                            if isinstance(p2, bytes):
-                                d['pattern_body'] = p2
-                return d
+        # re.match(CONST, s) / COMPILED.match(s)
+        ru = norm.regex_use(self.ctx, self.f, test)
+        if ru is not None and ru.method == 'match' and \
+                isinstance(ru.subject, ast.Name) and ru.subject.id == s and \
+                ru.pos is None:
+            d['kind'] = 'regex'
+            d['pattern'] = ru.pattern
+            d['sets_state'] = self._state_set_in(body)
+            # the body re-matches with a capturing group for the level
+            for x in body:
+                for c in walk_own(x):
+                    r2 = norm.regex_use(self.ctx, self.f, c)
+                    if r2 is not None and r2.method == 'match':
+                        d['pattern_body'] = r2.pattern
+            return d
         raise AnalysisError(
             'unrecognised branch test in Lexer._process_token: ' +
             ast.unparse(test)[:80])
@@ -242,64 +227,93 @@ class LexerSource:
 
     # -- terminators of the continuation branches ---------------------------
     def comment_terminator(self, link):
-        """bytes literal searched by s.index(...) and the skip added."""
+        """bytes literal searched by s.index(...) / s.find(...) and the number
+        of bytes skipped past its start."""
+        f = self.f
         for st in link['body']:
             for n in walk_own(st):
-                if isinstance(n, ast.BinOp) and isinstance(n.op, ast.Add) and \
-                        isinstance(n.left, ast.Call) and \
-                        isinstance(n.left.func, ast.Attribute) and \
-                        n.left.func.attr in ('index', 'find') and \
-                        n.left.args and \
-                        isinstance(const_str(n.left.args[0]), bytes):
-                    add = n.right.value if isinstance(
-                        n.right, ast.Constant) else None
-                    return const_str(n.left.args[0]), add
+                fu = norm.find_use(self.ctx, f, n)
+                if fu is None or not isinstance(fu[1], bytes):
+                    continue
+                term = fu[1]
+                # the skip: <found> + K, K a constant or len(<the terminator>)
+                add = None
+                result_names = set()
+                p = getattr(n, '_parent', None)
+                if isinstance(p, ast.Assign) and p.value is n:
+                    result_names = {t.id for t in p.targets
+                                    if isinstance(t, ast.Name)}
+                for st2 in link['body']:
+                    for b in walk_own(st2):
+                        if not (isinstance(b, ast.BinOp) and
+                                isinstance(b.op, ast.Add)):
+                            continue
+                        if b.left is n or (isinstance(b.left, ast.Name) and
+                                           b.left.id in result_names):
+                            v = norm.fold(self.ctx, f, b.right)
+                            if isinstance(v, int):
+                                add = v
+                return term, add
         return None, None
 
     def long_string_terminator(self, link):
-        """(prefix, state attr, suffix) of re.search(prefix + self.X + suffix)"""
+        """(prefix, state attr, suffix) of the closer searched for:
+        re.search(prefix + self.X + suffix, s) -- prefix/suffix regex source --
+        or s.find(prefix + self.X + suffix) -- literal text.  Literal text is
+        returned regex-escaped so both spellings compare equal."""
+        f = self.f
+
+        def parts_of(e):
+            e = norm.subst_locals(f.node, e)
+            parts = []
+
+            def flat(x):
+                if isinstance(x, ast.BinOp) and isinstance(x.op, ast.Add):
+                    flat(x.left)
+                    flat(x.right)
+                else:
+                    parts.append(x)
+            flat(e)
+            if len(parts) == 3 and isinstance(parts[1], ast.Attribute) and \
+                    isinstance(parts[1].value, ast.Name) and \
+                    parts[1].value.id == 'self':
+                a = norm.fold_bytes(self.ctx, f, parts[0])
+                b = norm.fold_bytes(self.ctx, f, parts[2])
+                if a is not None and b is not None:
+                    return a, parts[1].attr, b
+            return None
         for st in link['body']:
             for n in walk_own(st):
                 if isinstance(n, ast.Call) and self.model.ext_name(
                         self.module, n.func) == 're.search' and n.args:
-                    e = n.args[0]
-                    parts = []
-
-                    def flat(x):
-                        if isinstance(x, ast.BinOp) and \
-                                isinstance(x.op, ast.Add):
-                            flat(x.left)
-                            flat(x.right)
-                        else:
-                            parts.append(x)
-                    flat(e)
-                    if len(parts) == 3 and \
-                            isinstance(const_str(parts[0]), bytes) and \
-                            isinstance(const_str(parts[2]), bytes) and \
-                            isinstance(parts[1], ast.Attribute):
-                        return (const_str(parts[0]), parts[1].attr,
-                                const_str(parts[2]))
+                    r = parts_of(n.args[0])
+                    if r:
+                        return r
+                if isinstance(n, ast.Call) and \
+                        isinstance(n.func, ast.Attribute) and \
+                        n.func.attr in ('find', 'index') and n.args:
+                    r = parts_of(n.args[0])
+                    if r:
+                        return (re.escape(r[0]), r[1], re.escape(r[2]))
         return None
 
     def string_skip_set(self, link):
         """Bytes blindly consumed after a backslash by the in-string loop:
-        first bytes of every re.match() pattern tried on s[i+1:], plus the
-        single-byte keys of the escape table looked up with s[i+1:i+2]."""
+        first bytes of every regex matched after the backslash, plus the
+        single-byte keys of the escape table.  Helper functions the branch
+        calls are followed."""
         skip = set()
         uses_table = False
-        for st in link['body']:
-            for n in walk_own(st):
-                if isinstance(n, ast.Call) and self.model.ext_name(
-                        self.module, n.func) == 're.match' and n.args:
-                    pat = self.ev.eval_expr(self.module, n.args[0])
-                    if not isinstance(pat, bytes):
-                        raise AnalysisError('escape pattern not constant')
-                    skip |= rx.first_bytes(rx.build(pat))
-                if isinstance(n, ast.Compare) and len(n.ops) == 1 and \
-                        isinstance(n.ops[0], ast.In) and \
-                        isinstance(n.comparators[0], ast.Name) and \
-                        n.comparators[0].id == '_STRING_ESCAPES':
-                    uses_table = True
+        for (fn, n) in norm.walk_deep(self.model, self.f, list(link['body'])):
+            ru = norm.regex_use(self.ctx, fn, n)
+            if ru is not None and ru.method == 'match':
+                skip |= rx.first_bytes(rx.build(ru.pattern))
+            elif isinstance(n, ast.Call) and self.model.ext_name(
+                    fn.module, n.func) == 're.match' and n.args:
+                raise AnalysisError('escape pattern not constant')
+            if isinstance(n, ast.Name) and n.id == '_STRING_ESCAPES' and \
+                    isinstance(n.ctx, ast.Load):
+                uses_table = True
         if uses_table:
             for k in self.escapes:
                 if isinstance(k, bytes) and len(k) == 1:
